@@ -122,7 +122,15 @@ func init() {
 			return map[string]any{"baddoc": err.Error()}
 		}
 		op["tree"] = tree(doc)
-		c, err := pub.NewCollectionFromObject(object.Object(doc), nil, tagging)
+		var c *pub.Collection
+		var err error
+		if via := S(op, "via"); via != "" {
+			/* reached the way the program reaches it: as the value of a key of its owner (an actor's
+			   outbox, a post's replies), inline */
+			c, err = pub.VerifGetCollection(object.Object{"type": "Person", "id": "https://owner.example/u", via: doc}, via, nil, tagging)
+		} else {
+			c, err = pub.NewCollectionFromObject(object.Object(doc), nil, tagging)
+		}
 		if err != nil {
 			return map[string]any{"notcollection": true}
 		}
@@ -381,7 +389,12 @@ func genChain(r *rand.Rand, tag *int, layout []int) (string, int) {
 		}
 		next = "{" + strings.Join(fields, ",") + "}"
 	}
-	fields := []string{fmt.Sprintf("\"type\":%q", kindRoot), "\"totalItems\":" + pick(r, []string{"3", "3", "0", "1", "1000000", "-1", "\"7\"", "1.5", "null", "18446744073709551616"})}
+	fields := []string{fmt.Sprintf("\"type\":%q", kindRoot)}
+	/* a root says how many items it has, or does not (the bare {type, items, first} and
+	   {type, first} shapes included) */
+	if r.Intn(3) != 0 {
+		fields = append(fields, "\"totalItems\":"+pick(r, []string{"3", "3", "0", "1", "1000000", "-1", "\"7\"", "1.5", "null", "18446744073709551616"}))
+	}
 	if r.Intn(3) == 0 || layout != nil {
 		if it := genItems(fixedAt(0)); it != "" {
 			fields = append(fields, it)
@@ -411,6 +424,16 @@ func genEmptyRunLayout(r *rand.Rand) []int {
 		layout = append(layout, 1+r.Intn(3))
 	}
 	return layout
+}
+
+/* the paging scripts judged by their predicates alone (properties about returning normally) */
+func init() {
+	groups["C10P"] = group{gen: func(r *rand.Rand, n int, emit func(Op)) {
+		genC10(r, n, func(op Op) {
+			op["predicate_only"] = true
+			emit(op)
+		})
+	}}
 }
 
 func genC10(r *rand.Rand, n int, emit func(Op)) {
@@ -445,6 +468,9 @@ func genC10(r *rand.Rand, n int, emit func(Op)) {
 			start = r.Intn(6)
 		}
 		op := Op{"op": "paging", "root": root, "start": start}
+		if r.Intn(3) == 0 {
+			op["via"] = pick(r, []string{"outbox", "replies", "comments"})
+		}
 		if r.Intn(3) == 0 {
 			/* the same continuation asked again, and older continuations asked after newer ones */
 			script := []any{}
